@@ -238,6 +238,7 @@ ConfigFails(e) ==
     [] e.e \in {"CErrClear", "BErrClear"} -> IF On("C14") THEN F(e.err = 0 /\ e.msg = 0, "C14.errclear") ELSE {}
     [] e.e = "Ops" -> IF On("C12") THEN F(e.ret = OpsSetRet(e.name) /\ e.cur = OpsAfterSet(ops, e.name), "C12.setops") ELSE {}
     [] e.e = "OpsT" -> IF On("C12") THEN F(e.ret = OpsSetTRet(e.id) /\ e.cur = OpsAfterSetT(ops, e.id), "C12.setopst") ELSE {}
+    [] e.e = "OpsEnv" -> IF On("C12") THEN F(e.cur = (IF e.env \in Providers THEN e.env ELSE "openssl"), "C12.env") ELSE {}
     [] e.e = "BNew" -> IF On("C15") THEN F(e.ok = 1 => (e.hdr = <<>> /\ e.clm = <<>>), "C15.new") ELSE {}
     [] OTHER -> {}
 
@@ -305,6 +306,7 @@ Apply(e) ==
          ELSE BMap(e.b, e.k, e.which, e.v)
     [] e.e = "Verify" -> Verify(e.c, e.err, e.msg)
     [] e.e = "Generate" -> Generate(e.b, e.slot, GObs(e), e.err, e.msg)
+    [] e.e = "Forge" -> Forge(e.slot, e.tok)
     [] e.e = "CErrClear" -> CErrClear(e.c)
     [] e.e = "BErrClear" -> BErrClear(e.b)
     [] OTHER -> UNCHANGED vars
